@@ -520,8 +520,8 @@ func (caller *frame) callSSA(callpos token.Pos, fn *ssa.Function, args []value, 
 	if fn.TypeParams().Len() > 0 && len(fn.TypeArgs()) == 0 {
 		panic(unsupported("uninstantiated generic: " + fn.String()))
 	}
-	if depth := caller.depth(); depth > 200 {
-		panic(abortPath{"budget", "call depth > 200 in " + fn.String()})
+	if depth := caller.depth(); depth > p.maxDepth {
+		panic(abortPath{"budget", fmt.Sprintf("call depth > %d in %s", p.maxDepth, fn)})
 	}
 	p.funcs[fnKey(fn)]++
 	fr.env = make(map[ssa.Value]value, 16)
